@@ -800,7 +800,9 @@ pub fn has_top_level_word(text: &str, words: &[&str]) -> bool {
 
 pub const NAMES: &[&str] = &["a", "b", "c", "x", "y", "foo", "bar_1", "_t", "total", "n"];
 pub const FIELD_NAMES: &[&str] = &["a", "b", "k", "name", "x1"];
-pub const KEY_POOL: &[&str] = &["a", "b", "k", "name", "x1", "two words", "if", "1", "", "é", "a-b", "it's", "say \"hi\""];
+pub const KEY_POOL: &[&str] = &[
+    "a", "b", "k", "name", "x1", "two words", "if", "1", "", "é", "a-b", "it's", "say \"hi\"", "café", "x²", "naïve_1", "_ü", "k٣", "1a", "a.b", "true", "sum", "Ａ", "a\\b", "output", "e\u{301}x",
+];
 pub const STR_POOL: &[&str] = &["", "a", "hello world", "it's", "say \"hi\"", "// not a comment", "a\\b", "line1\nline2", "é😀", "[1, 2]", "x => y", " "];
 pub const BUILTINS_FOR_SYNTAX: &[&str] = &["sum", "map", "len", "max", "to_string", "range", "sort_by", "format"];
 
@@ -907,3 +909,90 @@ pub fn syntactic_program(t: &mut Tape, max_stmts: usize, depth: usize) -> Vec<E>
         })
         .collect()
 }
+
+/// all ordered pairs (2 shapes) and triples (5 shapes) of the binary operators, every
+/// prefix / postfix / binary combination, compound nodes as operands; atoms a, b, c, d, x, i
+pub fn operator_shapes() -> Vec<E> {
+    let (a, b, c, d) = (id("a"), id("b"), id("c"), id("d"));
+    let mut v = Vec::new();
+    for &o1 in &ALL_OPS {
+        for &o2 in &ALL_OPS {
+            v.push(bin(o2, bin(o1, a.clone(), b.clone()), c.clone()));
+            v.push(bin(o1, a.clone(), bin(o2, b.clone(), c.clone())));
+        }
+    }
+    for &o1 in &ALL_OPS {
+        for &o2 in &ALL_OPS {
+            for &o3 in &ALL_OPS {
+                let (x, y, z, w) = (a.clone(), b.clone(), c.clone(), d.clone());
+                v.push(bin(o3, bin(o2, bin(o1, x.clone(), y.clone()), z.clone()), w.clone()));
+                v.push(bin(o3, bin(o1, x.clone(), bin(o2, y.clone(), z.clone())), w.clone()));
+                v.push(bin(o2, bin(o1, x.clone(), y.clone()), bin(o3, z.clone(), w.clone())));
+                v.push(bin(o1, x.clone(), bin(o3, bin(o2, y.clone(), z.clone()), w.clone())));
+                v.push(bin(o1, x, bin(o2, y, bin(o3, z, w))));
+            }
+        }
+    }
+    // prefix / postfix / binary combinations
+    let prefixes: Vec<Box<dyn Fn(E) -> E>> = vec![
+        Box::new(|e| E::Neg(Box::new(e))),
+        Box::new(|e| E::Not(Box::new(e), false)),
+        Box::new(|e| E::Not(Box::new(e), true)),
+    ];
+    let postfixes: Vec<Box<dyn Fn(E) -> E>> = vec![
+        Box::new(|e| E::Fact(Box::new(e))),
+        Box::new(|e| E::Call(Box::new(e), vec![id("x")])),
+        Box::new(|e| E::Call(Box::new(e), vec![])),
+        Box::new(|e| E::Index(Box::new(e), Box::new(id("i")))),
+        Box::new(|e| E::Field(Box::new(e), "k".into())),
+    ];
+    for &op in &ALL_OPS {
+        for p in &prefixes {
+            v.push(p(bin(op, a.clone(), b.clone())));
+            v.push(bin(op, p(a.clone()), b.clone()));
+            v.push(bin(op, a.clone(), p(b.clone())));
+        }
+        for q in &postfixes {
+            v.push(q(bin(op, a.clone(), b.clone())));
+            v.push(bin(op, q(a.clone()), b.clone()));
+            v.push(bin(op, a.clone(), q(b.clone())));
+        }
+    }
+    for p in &prefixes {
+        for q in &postfixes {
+            v.push(p(q(a.clone())));
+            v.push(q(p(a.clone())));
+        }
+        for p2 in &prefixes {
+            v.push(p(p2(a.clone())));
+        }
+    }
+    for q in &postfixes {
+        for q2 in &postfixes {
+            v.push(q(q2(a.clone())));
+        }
+    }
+    // compound non-operator nodes as operands
+    let compounds = vec![
+        E::Lambda(vec![P::Req("x".into())], Box::new(bin(Op::Add, id("x"), n(1.0)))),
+        E::If(Box::new(a.clone()), Box::new(b.clone()), Box::new(c.clone())),
+        E::Assign("t".into(), Box::new(bin(Op::Add, a.clone(), b.clone()))),
+        E::Do(vec![], Box::new(a.clone())),
+    ];
+    for cmp in &compounds {
+        for &op in &ALL_OPS {
+            v.push(bin(op, cmp.clone(), b.clone()));
+            v.push(bin(op, a.clone(), cmp.clone()));
+        }
+        for p in &prefixes {
+            v.push(p(cmp.clone()));
+        }
+        for q in &postfixes {
+            v.push(q(cmp.clone()));
+        }
+        v.push(E::Lambda(vec![P::Req("x".into())], Box::new(cmp.clone())));
+        v.push(E::If(Box::new(cmp.clone()), Box::new(cmp.clone()), Box::new(cmp.clone())));
+    }
+    v
+}
+
